@@ -31,7 +31,7 @@ def handle (ws : List String) : String :=
       | .err e => "parse:" ++ (match e with
           | .eos => "eos" | .unterminated => "unterminated" | .malformed => "malformed" | .incomplete => "incomplete"
           | .duplicate => "duplicate" | .nexus => "nexus" | .data => "data"
-          | .tooManyTaxa => "toomany" | .undefinedTaxon => "undefined")
+          | .tooManyTaxa => "toomany" | .undefinedTaxon => "undefined" | .outOfFuel => "internal-out-of-fuel")
       | .internal w => "internal " ++ w
   | ["phylip", strict, inter, syms, text] =>
     match decodeText syms, decodeText text with
